@@ -65,6 +65,7 @@ type Prog struct {
 	nFuncs      int
 	callSum     map[string]int
 	lockHelpers map[string]*lockHelperSum
+	lockNets    map[string]*lockNetSum
 }
 
 func shortPath(p string) string {
